@@ -260,3 +260,24 @@ Proof.
   induction pairs as [|[a b] t IH]; [reflexivity|]. cbn [interleave flat_map app fst snd deinterleave].
   fold (interleave t). rewrite IH. reflexivity.
 Qed.
+
+(** ---- C06 for pairs: every pair file of a run over a chunked input is the concatenation, in chunk
+    order, of the files of the runs over the chunks; the pair count adds up *)
+Theorem pair_files_chunked order forder p (chunks : list (list (read * read))) d :
+  precords_of d (pr_files (prun order forder p (concat chunks))) =
+  concat (map (fun c => precords_of d (pr_files (prun order forder p c))) chunks).
+Proof.
+  destruct (pair_files_synchronized order forder p (concat chunks) d) as [H _]. cbv zeta in H. rewrite H. clear H.
+  induction chunks as [|c t IH]; [reflexivity|].
+  cbn [concat map]. unfold poutcomes in *. rewrite map_app, filter_app, map_app, IH. f_equal.
+  destruct (pair_files_synchronized order forder p c d) as [H _]. cbv zeta in H. rewrite H. reflexivity.
+Qed.
+
+Theorem pair_counts_chunked order forder p (chunks : list (list (read * read))) :
+  pr_n (prun order forder p (concat chunks)) = zsum_map (fun c => pr_n (prun order forder p c)) chunks.
+Proof.
+  induction chunks as [|c t IH]; [reflexivity|]. cbn [concat]. rewrite zsum_map_cons, <- IH.
+  destruct (pair_totals order forder p (c ++ concat t)) as [H1 _].
+  destruct (pair_totals order forder p c) as [H2 _]. destruct (pair_totals order forder p (concat t)) as [H3 _].
+  cbn zeta in *. rewrite H1, H2, H3. unfold zlen. rewrite app_length. lia.
+Qed.
